@@ -71,6 +71,13 @@ func (x *Exec) load(fr *frame, st *State, l *LocV) Value {
 		if !ok {
 			panic(unsupported("load from dead cell " + l.Cell.a.Comment))
 		}
+		if cv.Loc != nil || cv.Clo != nil {
+			// the cell holds an interior pointer or a function value (kept symbolic)
+			if len(l.Steps) == 0 {
+				return cv
+			}
+			panic(unsupported("path into a cell that holds an interior pointer"))
+		}
 		return c.LoadCell(cv, l.Steps)
 	}
 	if l.Kind == 'G' && len(l.Steps) == 0 {
@@ -639,16 +646,14 @@ func (x *Exec) sliceOp(fr *frame, st *State, t *ssa.Slice) Value {
 	panic(unsupported("slice of " + xv.T.String()))
 }
 
-var ifaceTags = map[string]int{}
-
+// tagOf numbers dynamic types. The number is a function of the type alone (a 40-bit hash of
+// its canonical name), so the generated text does not depend on which functions were
+// verified before in the same process.
 func tagOf(T types.Type) int {
-	k := typeKey(T)
-	if id, ok := ifaceTags[k]; ok {
-		return id
-	}
-	id := len(ifaceTags) + 1
-	ifaceTags[k] = id
-	return id
+	h := hashText(typeKey(T))
+	var id int
+	fmt.Sscanf(h[:10], "%x", &id)
+	return id + 1
 }
 
 func (x *Exec) makeInterface(fr *frame, st *State, t *ssa.MakeInterface) Value {
